@@ -154,6 +154,13 @@ _pool = None
 def pool():
     global _pool
     if _pool is None:
+        # import the library (pandas, sympy, … behind it) ONCE in the parent: the forked workers inherit the
+        # loaded modules instead of each importing them again (16 concurrent cold imports cost ~40 s under load)
+        import mxlpy  # noqa: F401
+        from mxlpy.surrogates import qss  # noqa: F401
+        import pandas  # noqa: F401
+        from mxlpy import Simulator  # noqa: F401
+
         _pool = mp.get_context("fork").Pool(min(16, os.cpu_count() or 4))
     return _pool
 
@@ -177,8 +184,9 @@ def canon_R(q, r):
 
 def evaluate(cases, use_driver=True):
     """-> list of (R, M, S) lists per case (M is None when the driver is unavailable)"""
-    Rs = pool().map(_real_worker, cases, chunksize=8)
-    Ss = [_spec(c) for c in cases]
+    cs = max(1, min(64, len(cases) // 64))
+    Rs_async = pool().map_async(_real_worker, cases, chunksize=cs)
+    Ss_async = pool().map_async(_spec, cases, chunksize=cs)
     if use_driver:
         reqs, owner = [], []
         for i, c in enumerate(cases):
@@ -193,6 +201,8 @@ def evaluate(cases, use_driver=True):
             Ms[i] = Ms[i] + r
     else:
         Ms = [None] * len(cases)
+    # the Lean driver (one process) ran while the pool worked on the real code and the oracle
+    Rs, Ss = Rs_async.get(), Ss_async.get()
     out = []
     for c, R, M, S in zip(cases, Rs, Ms, Ss):
         qs = c["queries"] * (2 if c.get("edit") else 1)
